@@ -196,6 +196,13 @@ def gen_cases(c):
     for d in (b"Content-Length: 3", b"content-length: 3", b"CONTENT-LENGTH: 4"):
         bad(rec(b"abc", headers=(d,)), "broken/duplicate-content-length")
         bad(good + rec(b"abc", headers=(b"A: b", d, b"C: d")), "broken/duplicate-content-length", [good])
+    # a duplicate whose FIRST value is 0 (a "seen" test on the value instead of a flag lets the second one through):
+    # 0 then 11, 0 then 0, 0 then 6000 (beyond one read), in both cases of the name, also as the second record
+    for body in (b"hello world", b"", rbytes(6000)):
+        for z in (b"Content-Length: 0", b"content-length:0", b"Content-Length: +0"):
+            bad(rec(body, headers=(z,)), "broken/duplicate-content-length-first-is-zero")
+        bad(good + rec(body, headers=(b"A: b", b"Content-Length: 0", b"C: d")) + tail, "broken/duplicate-content-length-first-is-zero", [good])
+        bad(rec(body, headers=(b"Content-Length: 0",), cl_pos=0), "broken/duplicate-content-length-second-is-zero")
     for term in (b"\r\n\r\r", b"\n\n\n\n", b"\r\n\r", b"\r\nXX", b"    "):
         bad(b"WARC/1.0\r\nContent-Length: 3\r\n\r\nabc" + term + tail, "broken/bad-terminator")
     for dl in (-3, -1, 1, 2, 5):
@@ -245,7 +252,7 @@ def gen_cases(c):
     return cases
 
 
-def run_parallel(c, rng, work, recs, jobs, gz, inputs, gz_input=False, child=("cat",)):
+def run_parallel(c, rng, work, recs, jobs, gz, inputs, gz_input=False, child=("cat",), sched=None):
     names = []
     if inputs:
         k = len(recs) // inputs
@@ -260,8 +267,14 @@ def run_parallel(c, rng, work, recs, jobs, gz, inputs, gz_input=False, child=("c
     else:
         argv_ = [repo_bin("warc_parallel"), "-j", str(jobs)] + (["-z"] if gz else []) + list(child)
         stdin = b"".join(recs)
-    st, so, se = codeclog.run_tool_limited(argv_, stdin=stdin, timeout=25)
-    how = "warc_parallel -j %d %s%s %s   (%d records, %d bytes)" % (jobs, "-z " if gz else "", ("-i %d files%s --" % (inputs, " (gz)" if gz_input else "")) if inputs else "<stdin", " ".join(child), len(recs), sum(len(r) for r in recs))
+    env = None
+    pre = ""
+    if sched is not None:
+        # random delays at the scheduling points of util::PCQueue (weak PREPROCESS_VERIF hooks, harness/libvsched.c)
+        env = dict(os.environ, LD_PRELOAD=hx_bin("libvsched.so"), VSCHED_SEED=str(sched[0]), VSCHED_PERMILLE=str(sched[1]), VSCHED_USEC=str(sched[2]))
+        pre = "LD_PRELOAD=libvsched.so VSCHED_SEED=%d VSCHED_PERMILLE=%d VSCHED_USEC=%d " % sched
+    st, so, se = codeclog.run_tool_limited(argv_, stdin=stdin, timeout=40 if sched else 25, env=env)
+    how = pre + "warc_parallel -j %d %s%s %s   (%d records, %d bytes)" % (jobs, "-z " if gz else "", ("-i %d files%s --" % (inputs, " (gz)" if gz_input else "")) if inputs else "<stdin", " ".join(child), len(recs), sum(len(r) for r in recs))
     rep = {"op": "warc_parallel", "how": how, "jobs": jobs, "gzip": gz, "inputs": inputs, "status": st,
            "records_hex": [r.hex() for r in recs[:6]] if sum(len(r) for r in recs[:6]) < 3000 else "large", "stderr": se.decode("utf-8", "replace")[-200:]}
     if st != 0:
@@ -301,7 +314,7 @@ def run_parallel(c, rng, work, recs, jobs, gz, inputs, gz_input=False, child=("c
 
 def main(argv):
     c = Check("C17", argv)
-    ok, blog = build_repo(["hx_warc", "warc_parallel", "vcodec"])
+    ok, blog = build_repo(["hx_warc", "warc_parallel", "vcodec", "vsched"])
     if not ok:
         c.broken.append("build of the repo working tree failed: " + blog[-800:])
         return c.finish(rule="build failed")
@@ -459,6 +472,18 @@ def main(argv):
             c.violation("warc_parallel-loses-records-of-multi-member-gz: %s: status %s, %s of %d records" % (x["bucket"], st, "?" if got is None else len(got), len(x["records"])),
                         {"op": "warc_parallel", "how": "warc_parallel -j 2 -i <stream.gz> -- cat", "stream_hex": x["stream"].hex()[:200000], "bucket": x["bucket"]})
     # many tiny records, all workers emitting at once: contention on the shared output stream
+    # several reader threads producing into the queue at the same time (ProduceSwap from more than one thread):
+    # thousands of small records over 3-4 input files, repeated; every record exactly once
+    for rep_ in range(3 if c.tier == "quick" else 10):
+        runs.append((4, False, 3, False, make_records(9000, 30)))
+    runs.append((8, False, 4, False, make_records(12000, 20)))
+    runs.append((2, True, 3, False, make_records(3000, 30)))
+    # the same with random delays injected at every scheduling point of the queue (semaphore wait/post, inside and
+    # right after the two index mutexes): windows between "slot claimed" and "slot filled/read" are held open
+    for k_ in range(6 if c.tier == "quick" else 30):
+        runs.append((rng.choice((1, 2, 4, 7)), k_ % 3 == 2, rng.choice((2, 3, 5)), False, make_records(rng.choice((600, 2000)), 30), ("cat",),
+                     (k_ + 1, rng.choice((20, 100, 300)), rng.choice((20, 50, 200)))))
+    runs.append((3, False, 0, False, make_records(1500, 30), ("cat",), (7, 100, 50)))       # one producer, delays
     runs.append((8, False, 0, False, make_records(4000, 60)))
     runs.append((6, True, 2, False, make_records(1500, 60)))
     # an identity child that re-chunks its output (7-byte writes): the collector's WARCReader sees the
@@ -469,11 +494,12 @@ def main(argv):
     for run in runs:
         jobs, gz, inputs, gzin, recs = run[:5]
         child = run[5] if len(run) > 5 else ("cat",)
-        c.count(("parallel", jobs, gz, inputs, len(recs), child), bucket="warc_parallel/j=%d/%s/%s%s" % (jobs, "gz-out" if gz else "plain-out", "files" if inputs else "stdin", "" if child == ("cat",) else "/child=" + child[0]))
+        sched = run[6] if len(run) > 6 else None
+        c.count(("parallel", jobs, gz, inputs, len(recs), child, sched), bucket="warc_parallel/j=%d/%s/%s%s%s" % (jobs, "gz-out" if gz else "plain-out", ("%d-files" % inputs) if inputs else "stdin", "" if child == ("cat",) else "/child=" + child[0], "/delays-at-queue-hooks" if sched else ""))
         if hangs >= 2:
             c.broken.append("warc_parallel runs skipped after two hangs")
             break
-        if run_parallel(c, rng, work, recs, jobs, gz, inputs, gzin, child) == "timeout":
+        if run_parallel(c, rng, work, recs, jobs, gz, inputs, gzin, child, sched) == "timeout":
             hangs += 1
     shutil.rmtree(work, ignore_errors=True)
 
